@@ -112,7 +112,7 @@ PROPS = {
             "0 <= eid[i] < count for every person (well-formed membership)",
         ],
         "bounded": [],
-        "not_decided": ["reduce / min / max / all, value_nth_person, get_rank (a counting lemma of the intermediate-value kind on top of the enumeration lemma): not under contract in this version",
+        "not_decided": ["get_rank, reduce with reducers other than maximum / minimum / logical_and: not under contract in this version",
                         "the shortcut resolution of projectors (get_projector_from_shortcut, __getattr__ delegation)"],
     },
     "C15": {
